@@ -322,7 +322,53 @@ def problems():
 
     asyncio.run(main())
     out.extend(reused_wrappers())
+    out.extend(traced_outcomes())
     return out
+
+
+def traced_outcomes():
+    """traced records the outcome - whatever the result is: falsy values are results too, and a result is never inspected
+    (an object whose truth value is undefined, like an array, must come back untouched)."""
+    out = []
+    if not __debug__:
+        return out
+
+    class Ambiguous:
+        def __bool__(self):
+            raise ValueError("the truth value of this result is ambiguous")
+
+        __len__ = __bool__
+    values = [0, 0.0, "", (), [], {}, False, None, Ambiguous(), 7, "text"]
+
+    async def prog():
+        for i, value in enumerate(values):
+            for is_async in (False, True):
+                if is_async:
+                    @traced
+                    async def produce(tag):
+                        return value
+                else:
+                    @traced
+                    def produce(tag):
+                        return value
+                kept = []
+                label = f"traced({'async' if is_async else 'sync'}) returning {type(value).__name__} #{i}"
+                try:
+                    async with ctx.scope("root", completion=kept.append):
+                        got = produce(i)
+                        got = await got if is_async else got
+                except BaseException as e:  # noqa
+                    out.append(f"{label}: the function returned normally but the traced call raised {e!r}")
+                    continue
+                await asyncio.sleep(0)
+                if got is not value:
+                    out.append(f"{label}: the caller received {got!r}")
+                nested = [n for n in kept[0]._nested if n.label == "produce"] if kept else []
+                rec = nested[0].read(ResultTrace) if nested else None
+                if rec is None or rec.result is not value:
+                    out.append(f"{label}: the recorded outcome is {getattr(rec, 'result', rec)!r}, not the result itself")
+    asyncio.run(prog())
+    return out[:3]
 
 
 def reused_wrappers():
